@@ -9,7 +9,7 @@ Open Scope R_scope.
 Lemma c_loading_factor_gen M rml rmg temp v op (mat : mrep) (r1 r2 : lrep) :
   0 < M -> 0 < rml -> 0 < rmg ->
   c_loading RNum v (l_basis r1) (l_basis r2) (l_unit r1) (l_unit r2)
-    (mkAds RNum op (Some M) (Some (rml * M)) (Some (rmg * M)) (Some rml) (Some rmg)) temp (m_basis mat) (m_unit mat)
+    (@ads_const RNum op (Some M) (Some (rml * M)) (Some (rmg * M)) (Some rml) (Some rmg)) temp (m_basis mat) (m_unit mat)
   = Ok (spec_conv (l_canon M rml rmg mat r1) (l_canon M rml rmg mat r2) v).
 Proof.
   intros HM Hl Hg.
@@ -24,6 +24,41 @@ Lemma c_loading_factor_all M rml rmg temp v (mat : mrep) (r1 r2 : lrep) :
   c_loading RNum v (l_basis r1) (l_basis r2) (l_unit r1) (l_unit r2) (ads_l M rml rmg) temp (m_basis mat) (m_unit mat)
   = Ok (spec_conv (l_canon M rml rmg mat r1) (l_canon M rml rmg mat r2) v).
 Proof. intros; unfold ads_l; now apply c_loading_factor_gen. Qed.
+
+(* ---- adsorbates whose properties depend on the temperature argument: the converters consult them at exactly
+   the temperature they are given, so the factor theorems hold with the constants read AT THAT temperature *)
+Lemma c_pressure_at_temp v m1 m2 u1 u2 (a : adsorbate RNum) T :
+  c_pressure RNum v m1 m2 u1 u2 a T = c_pressure RNum v m1 m2 u1 u2 (at_temp a T) T.
+Proof. reflexivity. Qed.
+Lemma c_loading_at_temp v b1 b2 u1 u2 (a : adsorbate RNum) T bm um :
+  c_loading RNum v b1 b2 u1 u2 a T bm um = c_loading RNum v b1 b2 u1 u2 (at_temp a T) T bm um.
+Proof. reflexivity. Qed.
+Definition ads_at (a : adsorbate RNum) (temp : option R) (M rml rmg : R) : Prop :=
+  a_M a = Some M /\ a_rho_l a temp = Some (rml * M) /\ a_rho_g a temp = Some (rmg * M)
+  /\ a_rhom_l a temp = Some rml /\ a_rhom_g a temp = Some rmg.
+Theorem c_pressure_factor_at psat T v (r1 r2 : prep) (a : adsorbate RNum) :
+  a_psat_Pa a (Some T) = Some psat -> 0 < psat -> T <> 0 ->
+  c_pressure RNum v (p_mode r1) (p_mode r2) (p_unit r1) (p_unit r2) a (Some T)
+  = Ok (spec_conv (p_canon psat r1) (p_canon psat r2) v).
+Proof.
+  intros Ha Hp HT. rewrite c_pressure_at_temp. unfold at_temp. rewrite Ha. now apply c_pressure_factor_gen.
+Qed.
+Theorem c_loading_factor_at M rml rmg temp v (mat : mrep) (r1 r2 : lrep) (a : adsorbate RNum) :
+  ads_at a temp M rml rmg -> 0 < M -> 0 < rml -> 0 < rmg ->
+  c_loading RNum v (l_basis r1) (l_basis r2) (l_unit r1) (l_unit r2) a temp (m_basis mat) (m_unit mat)
+  = Ok (spec_conv (l_canon M rml rmg mat r1) (l_canon M rml rmg mat r2) v).
+Proof.
+  intros (H1 & H2 & H3 & H4 & H5) HM Hl Hg. rewrite c_loading_at_temp. unfold at_temp.
+  rewrite H1, H2, H3, H4, H5. now apply c_loading_factor_gen.
+Qed.
+Theorem c_loading_factor_phys_at M rml rmg temp v bm um (r1 r2 : lrep) (a : adsorbate RNum) :
+  ads_at a temp M rml rmg -> 0 < M -> 0 < rml -> 0 < rmg -> l_is_phys r1 = true -> l_is_phys r2 = true ->
+  c_loading RNum v (l_basis r1) (l_basis r2) (l_unit r1) (l_unit r2) a temp bm um
+  = Ok (spec_conv (l_canon_phys M rml rmg r1) (l_canon_phys M rml rmg r2) v).
+Proof.
+  intros (H1 & H2 & H3 & H4 & H5) HM Hl Hg P1 P2. rewrite c_loading_at_temp. unfold at_temp.
+  rewrite H1, H2, H3, H4, H5. now apply c_loading_factor_phys.
+Qed.
 
 Lemma p_canon_pos psat r : 0 < psat -> 0 < p_canon psat r.
 Proof. intros; destruct r as [u| |]; simpl; [apply pa_per_pos|lra|lra]. Qed.
@@ -108,7 +143,7 @@ Lemma c_loading_inconsistent_ads_refuted :
     <> bind (c_loading RNum 1 (Some "mass") (Some "molar") (Some "g") (Some "mol") a None None None)
             (fun w => c_loading RNum w (Some "molar") (Some "volume_liquid") (Some "mol") (Some "cm3") a None None None).
 Proof.
-  exists (mkAds RNum None (Some 2) (Some 1) (Some 1) (Some 1) (Some 1)).
+  exists (@ads_const RNum None (Some 2) (Some 1) (Some 1) (Some 1) (Some 1)).
   eval_model. intro H; injection H; unfold Q2R; simpl; lra.
 Qed.
 
